@@ -406,6 +406,64 @@ def _worker(args):
                     unknown_branches=0, inadmissible_witness=0, params={}, samples=[], decisions=0)
 
 
+def _child(conn, modname, idx, opts):
+    try:
+        r = _worker((modname, idx, opts))
+    except BaseException as e:
+        r = None
+    try:
+        conn.send(r)
+    finally:
+        conn.close()
+        os._exit(0)
+
+
+def _dead_result(fam, why):
+    return dict(family=fam.fid, paths=0, undecided=1, violations=[], outcomes={}, validated=0, diverged=[], errors=[why],
+                functions=[], stats=core.Stats().as_dict(), wall_s=0, decided=False, missing_outcomes=[], infeasible=0,
+                unknown_branches=0, inadmissible_witness=0, params={}, samples=[], decisions=0)
+
+
+def schedule(modname, fams, idxs, opts, jobs):
+    """one forked process per family with a hard wall-clock limit (a solver call that ignores its timeout is killed and
+    the family is reported undecided -- never as passed)"""
+    ctxm = mp.get_context('fork')
+    pending = list(idxs)
+    # longest budgets first
+    running = {}
+    results = []
+    while pending or running:
+        while pending and len(running) < jobs:
+            i = pending.pop(0)
+            pr, pw = ctxm.Pipe(duplex=False)
+            p = ctxm.Process(target=_child, args=(pw, modname, i, opts))
+            p.start()
+            pw.close()
+            limit = (fams[i].budget_s or opts['budget_s']) * 1.25 + 30
+            running[i] = (p, pr, time.time() + limit)
+        time.sleep(0.05)
+        for i, (p, pr, dl) in list(running.items()):
+            if pr.poll():
+                try:
+                    r = pr.recv()
+                except EOFError:
+                    r = None
+                p.join(5)
+                if p.is_alive():
+                    p.kill()
+                results.append(r if r is not None else _dead_result(fams[i], 'worker died'))
+                del running[i]
+            elif not p.is_alive():
+                results.append(_dead_result(fams[i], 'worker died without a result (exit code %s)' % p.exitcode))
+                del running[i]
+            elif time.time() > dl:
+                p.kill()
+                p.join(5)
+                results.append(_dead_result(fams[i], 'killed: wall-clock limit exceeded (a solver call ignored its timeout)'))
+                del running[i]
+    return results
+
+
 def load_known(prop):
     fn = os.path.join(VERIF, 'known_findings.json')
     if not os.path.exists(fn):
@@ -427,11 +485,7 @@ def main_check(prop, modname, tier, seed, level_note, bounds, outside_claim, ass
                 timeout_ms=getattr(mod, 'TIMEOUT_MS', {}).get(tier, 3000 if tier == 'quick' else 10000),
                 slow_ms=getattr(mod, 'SLOW_MS', {}).get(tier, 15000 if tier == 'quick' else 60000))
     jobs = jobs or min(16, os.cpu_count() or 4)
-    ctxm = mp.get_context('fork')
-    results = []
-    with ctxm.Pool(jobs, maxtasksperchild=8) as pool:
-        for r in pool.imap_unordered(_worker, [(modname, i, opts) for i in idxs], chunksize=1):
-            results.append(r)
+    results = schedule(modname, fams, idxs, opts, jobs)
     results.sort(key=lambda r: r['family'])
     extra = None
     if extra_hook is not None:
